@@ -212,6 +212,67 @@ def run_loader(home, ds, script, dl=True, even=False, retries=3, gz=False, crash
     return out
 
 
+def run_two_threads(home, gz=False):
+    """Two loader THREADS of one interpreter (call it inside a child process): thread A loads dataset 0, thread B
+    dataset 1 and meets one transient network error exactly while A is parsing its download; both must end with their
+    data, B after two download attempts.  Returns {'A': .., 'B': .., 'attempts_B': n}."""
+    import threading
+    import warnings
+    repo_on_path()
+    import traffic_weaver.datasets._base as base
+    warnings.simplefilter("ignore")
+    a_parsing, b_past_failure = threading.Event(), threading.Event()
+    who = {}
+    attempts = {"A": 0, "B": 0}
+    orig_loadtxt = np.loadtxt
+
+    def urlretrieve(url, path):
+        me = who.get(threading.get_ident())
+        attempts[me] += 1
+        ds = 0 if me == "A" else 1
+        if me == "B":
+            if attempts["B"] == 1:
+                a_parsing.wait(10)
+                raise URLError("scripted transient failure")
+            b_past_failure.set()
+        with open(path, "wb") as f:
+            f.write(payload_for(ds, "g", gz))
+        return path, None
+
+    def loadtxt(*a, **k):
+        if who.get(threading.get_ident()) == "A":
+            a_parsing.set()
+            b_past_failure.wait(10)
+        return orig_loadtxt(*a, **k)
+    base.urlretrieve = urlretrieve
+    np.loadtxt = loadtxt
+    time.sleep = lambda s: None
+    out = {}
+
+    def load(me, ds):
+        who[threading.get_ident()] = me
+        try:
+            r = base.load_csv_dataset_from_remote(remote=remote_for(ds, gz), dataset_filename=slot_name(ds),
+                                                  dataset_folder=FOLDER, data_home=home, download_if_missing=True,
+                                                  download_even_if_available=False, validate_checksum=True, n_retries=3,
+                                                  delay=0.0, gzip=gz)
+            out[me] = "good" if np.array_equal(np.asarray(r), good_array(ds)) else "other"
+        except BaseException as e:  # noqa
+            out[me] = "raised " + type(e).__name__
+        finally:
+            if me == "B":
+                b_past_failure.set()
+    ta = threading.Thread(target=load, args=("A", 0))
+    tb = threading.Thread(target=load, args=("B", 1))
+    ta.start()
+    tb.start()
+    ta.join(60)
+    tb.join(60)
+    out["attempts_B"] = attempts["B"]
+    out["entries"] = [observe(home, 0)[0], observe(home, 1)[0]]
+    return out
+
+
 def run_in_child(fn):
     """fork, run fn in the child, return (exit status, result written by the child or None)"""
     r, w = os.pipe()
